@@ -420,15 +420,46 @@ def _exc_obs(e):
     return ('exc', type(e).__name__, typ, getattr(t, 'start_pos', None) if typ != '$END' else None)
 
 
-def part_c(gi, lexer, res, only=None):
+def _double(t):
+    return t.update(value=t.value + t.value)
+
+
+def part_c(gi, lexer, res, only=None, cb=False):
     """resume_parse() from an error state: for every text of TEXTS and every position, a token the parser cannot take
     there is inserted; parse() raises UnexpectedToken carrying an interactive parser; resuming it must give exactly what a
     fresh interactive parser gives when fed the tokens before the error and then the tokens after the offending one."""
     name, gtext, terms = GRAMMARS[gi]
     if name not in TEXTS:
         return
-    p = Lark(gtext, parser='lalr', lexer=lexer)
+    # cb: every terminal has a lexer callback that changes the *length* of the token value (the lexer position after an
+    # error is a source offset, whatever the callback made of the value)
+    kw = {'lexer_callbacks': {n: _double for n in terms}} if cb else {}
+    p = Lark(gtext, parser='lalr', lexer=lexer, **kw)
+    pbytes = Lark(gtext, parser='lalr', lexer=lexer, use_bytes=True, **kw)
     for text in TEXTS[name]:
+        # parse(on_error=...) over an unlexable character: the handler lets lark skip it; str and bytes
+        for pos in range(len(text) + 1):
+            t2 = text[:pos] + '@' + text[pos:]
+            if only and only['text'] != t2:
+                continue
+            whole = larkio.parse(p, text)
+            if whole[0] != 'ok':
+                continue
+            for rep, parser_, arg in (('str', p, t2), ('bytes', pbytes, t2.encode('ascii'))):
+                seen = []
+
+                def once(e):
+                    seen.append(type(e).__name__)
+                    return len(seen) == 1
+                r = util.timed(lambda: parser_.parse(arg, on_error=once), 10)
+                res['transitions'] += 1
+                res['nontrivial'] += 1
+                got = ('ok', obs.canon(r[1])) if r[0] == 'ok' else (r[0], type(r[1]).__name__ if r[0] == 'exc' else None)
+                want = ('ok', obs.canon(whole[1]))
+                if got != want:
+                    res['viol'].append({'kind': 'on_error-skip-differs-from-parse', 'cause': 'on-error', 'expected': want, 'observed': got,
+                                        'case': {'part': 'C', 'grammar_name': name, 'grammar': gtext, 'lexer': lexer, 'text': t2, 'representation': rep,
+                                                 'callbacks': cb, 'item': ['C', gi, lexer, cb]}})
         for pos in range(len(text) + 1):
             for bad in sorted(set(terms.values())):
                 t2 = text[:pos] + bad + text[pos:]
@@ -441,65 +472,72 @@ def part_c(gi, lexer, res, only=None):
                     err = e
                 except UnexpectedInput:
                     continue
-                res['transitions'] += 1
-                res['states'] += 1
-                res['traces'] += 1
-                ip = err.interactive_parser
-                case = {'part': 'C', 'grammar_name': name, 'grammar': gtext, 'lexer': lexer, 'text': t2, 'item': ['C', gi, lexer]}
-                # reference: fresh interactive parser, tokens of the text without the offending one
                 try:
-                    toks = list(p.lex(t2)) if lexer == 'basic' else None
-                except UnexpectedInput:
-                    toks = None
-                if toks is None:
-                    # contextual lexer: take the tokens from the basic-lexer twin (the grammars have no colliding terminals)
-                    toks = list(Lark(gtext, parser='lalr', lexer='basic').lex(t2))
-                k = next((i for i, t in enumerate(toks) if t.start_pos == err.token.start_pos and t.type == err.token.type), None)
-                if k is None:
-                    continue
-                ref = p.parse_interactive()
-                try:
-                    for t in toks[:k] + toks[k + 1:]:
-                        ref.feed_token(t)
-                    want = ('ok', obs.canon(ref.feed_eof(toks[-1] if k != len(toks) - 1 else (toks[-2] if len(toks) > 1 else None)), pos=True))
-                except UnexpectedInput as e2:
-                    want = _exc_obs(e2)
-                try:
-                    got = ('ok', obs.canon(ip.resume_parse(), pos=True))
-                except UnexpectedInput as e2:
-                    got = _exc_obs(e2)
-                res['nontrivial'] += 1
-                if got != want:
-                    res['viol'].append({'kind': 'resume-from-error-state', 'cause': 'resume-error', 'case': case, 'expected': want, 'observed': got})
-                    continue
-                # several repairs tried from ONE immutable snapshot of the error state: each child (snapshot.feed_token(r))
-                # resumed in turn must equal a fresh parser fed  tokens-before + r + tokens-after
-                try:
-                    p.parse(t2)
-                except UnexpectedToken as e3:
-                    snap = e3.interactive_parser.as_immutable()
-                for r in sorted(t for t in snap.accepts() if t in terms):
-                    rt = Token(r, terms[r], start_pos=err.token.start_pos, line=1, column=err.token.start_pos + 1,
-                               end_line=1, end_column=err.token.start_pos + 2, end_pos=err.token.start_pos + 1)
+                    res['transitions'] += 1
+                    res['states'] += 1
+                    res['traces'] += 1
+                    ip = err.interactive_parser
+                    case = {'part': 'C', 'grammar_name': name, 'grammar': gtext, 'lexer': lexer, 'text': t2, 'callbacks': cb, 'item': ['C', gi, lexer, cb]}
+                    # reference: fresh interactive parser, tokens of the text without the offending one
+                    try:
+                        toks = list(p.lex(t2)) if lexer == 'basic' else None
+                    except UnexpectedInput:
+                        toks = None
+                    if toks is None:
+                        # contextual lexer: take the tokens from the basic-lexer twin (the grammars have no colliding terminals)
+                        toks = list(Lark(gtext, parser='lalr', lexer='basic', **kw).lex(t2))
+                    k = next((i for i, t in enumerate(toks) if t.start_pos == err.token.start_pos and t.type == err.token.type), None)
+                    if k is None:
+                        continue
                     ref = p.parse_interactive()
                     try:
-                        for t in toks[:k] + [rt] + toks[k + 1:]:
+                        for t in toks[:k] + toks[k + 1:]:
                             ref.feed_token(t)
-                        want = ('ok', obs.canon(ref.feed_eof(toks[-1]), pos=True))
+                        want = ('ok', obs.canon(ref.feed_eof(toks[-1] if k != len(toks) - 1 else (toks[-2] if len(toks) > 1 else None)), pos=True))
                     except UnexpectedInput as e2:
                         want = _exc_obs(e2)
                     try:
-                        child = snap.feed_token(rt)
-                        got = ('ok', obs.canon(child.resume_parse(), pos=True))
+                        got = ('ok', obs.canon(ip.resume_parse(), pos=True))
                     except UnexpectedInput as e2:
                         got = _exc_obs(e2)
-                    res['transitions'] += 2
                     res['nontrivial'] += 1
                     if got != want:
-                        res['viol'].append({'kind': 'repair-from-immutable-snapshot', 'cause': 'snapshot-repair', 'case': dict(case, repair=r),
-                                            'expected': want, 'observed': got})
-                        break
+                        res['viol'].append({'kind': 'resume-from-error-state', 'cause': 'resume-error', 'case': case, 'expected': want, 'observed': got})
+                        continue
+                    # several repairs tried from ONE immutable snapshot of the error state: each child (snapshot.feed_token(r))
+                    # resumed in turn must equal a fresh parser fed  tokens-before + r + tokens-after
+                    try:
+                        p.parse(t2)
+                    except UnexpectedToken as e3:
+                        snap = e3.interactive_parser.as_immutable()
+                    for r in sorted(t for t in snap.accepts() if t in terms):
+                        rt = Token(r, terms[r], start_pos=err.token.start_pos, line=1, column=err.token.start_pos + 1,
+                                   end_line=1, end_column=err.token.start_pos + 2, end_pos=err.token.start_pos + 1)
+                        ref = p.parse_interactive()
+                        try:
+                            for t in toks[:k] + [rt] + toks[k + 1:]:
+                                ref.feed_token(t)
+                            want = ('ok', obs.canon(ref.feed_eof(toks[-1]), pos=True))
+                        except UnexpectedInput as e2:
+                            want = _exc_obs(e2)
+                        try:
+                            child = snap.feed_token(rt)
+                            got = ('ok', obs.canon(child.resume_parse(), pos=True))
+                        except UnexpectedInput as e2:
+                            got = _exc_obs(e2)
+                        res['transitions'] += 2
+                        res['nontrivial'] += 1
+                        if got != want:
+                            res['viol'].append({'kind': 'repair-from-immutable-snapshot', 'cause': 'snapshot-repair', 'case': dict(case, repair=r),
+                                                'expected': want, 'observed': got})
+                            break
 
+                except UnexpectedInput:
+                    raise
+                except Exception as ex:     # anything but a parse error out of copy / resume / feed on an error state
+                    res['viol'].append({'kind': 'exception-from-error-state', 'cause': 'resume-error', 'expected': 'a result or an UnexpectedInput',
+                                        'observed': '%s: %s' % (type(ex).__name__, str(ex)[:150]),
+                                        'case': {'part': 'C', 'grammar_name': name, 'grammar': gtext, 'lexer': lexer, 'text': t2, 'callbacks': cb, 'item': ['C', gi, lexer, cb]}})
 
 def plan(tier, seed):
     depth = 5 if tier == 'quick' else 6
@@ -513,6 +551,8 @@ def plan(tier, seed):
         for lexer in ('basic', 'contextual'):
             items.append(('B', gi, lexer))
             items.append(('C', gi, lexer))
+            if g[0] in TEXTS:
+                items.append(('C', gi, lexer, True))
         for oi in (1, 3):
             items.append(('A2', gi, oi, 8 if tier == 'quick' else 10))
     return items
@@ -531,7 +571,7 @@ def work(item):
     elif item[0] == 'A2':
         explore(item[1], item[2], item[3], res, lean=True)
     elif item[0] == 'C':
-        part_c(item[1], item[2], res)
+        part_c(item[1], item[2], res, cb=bool(item[3]) if len(item) > 3 else False)
     else:
         part_b(item[1], item[2], res)
     res['counters'] = dict(res['counters'])
@@ -541,7 +581,7 @@ def work(item):
 def replay(case):
     res = new_res()
     if case.get('part') == 'C':
-        part_c(case['item'][1], case['item'][2], res, only=case)
+        part_c(case['item'][1], case['item'][2], res, only=case, cb=bool(case['item'][3]) if len(case['item']) > 3 else False)
     elif case.get('part') == 'B':
         part_b(case['item'][1], case['item'][2], res, only=case)
     else:
